@@ -342,7 +342,7 @@ impl Cc for OctColor {
 }
 
 /// one (colour type, w, h) geometry: all supplied lengths
-fn var_case<C: Cc>(w: u32, h: u32, every_pixel: bool, rep: &mut Report) {
+fn var_case<C: Cc>(w: u32, h: u32, every_pixel: bool, miri: bool, rep: &mut Report) {
     let req = required(C::PLANES, C::BPP, w as usize, h as usize);
     let mut lens = vec![req, req + 1, 0];
     if req > 0 {
@@ -453,7 +453,7 @@ fn var_case<C: Cc>(w: u32, h: u32, every_pixel: bool, rep: &mut Report) {
             pts.dedup();
         }
         let exposed_c = exposed.min(len);
-        for &(x, y) in &pts {
+        'pts: for &(x, y) in &pts {
             let mut colours: Vec<C> = C::nonzero().to_vec();
             colours.push(C::zero());
             for &c in &colours {
@@ -498,6 +498,10 @@ fn var_case<C: Cc>(w: u32, h: u32, every_pixel: bool, rep: &mut Report) {
                     );
                     for b in backing.iter_mut() {
                         *b = 0;
+                    }
+                    if miri {
+                        // a caught panic costs ~0.1 s under Miri: one witness per (geometry, length)
+                        break 'pts;
                     }
                     continue;
                 }
@@ -651,9 +655,9 @@ pub fn run(ctx: &Ctx) -> Report {
     let threads = if miri { 1 } else { ctx.threads };
     let mut rep = par_run(&cases, threads, |_i, c, rep| match c {
         Case::Alias(i) => alias_check(&al[*i], rep),
-        Case::Var(0, w, h) => var_case::<Color>(*w, *h, every_pixel, rep),
-        Case::Var(1, w, h) => var_case::<TriColor>(*w, *h, every_pixel, rep),
-        Case::Var(_, w, h) => var_case::<OctColor>(*w, *h, every_pixel, rep),
+        Case::Var(0, w, h) => var_case::<Color>(*w, *h, every_pixel, miri, rep),
+        Case::Var(1, w, h) => var_case::<TriColor>(*w, *h, every_pixel, miri, rep),
+        Case::Var(_, w, h) => var_case::<OctColor>(*w, *h, every_pixel, miri, rep),
         Case::BufLen(w) => buffer_len_row(*w, &hs, rep),
     });
     rep.note("reference formula: planes * rows * ceil(width*bits_per_pixel/8); alias geometry from the driver module's WIDTH/HEIGHT constants, colour type per alias from DESIGN appendix A");
@@ -663,6 +667,9 @@ pub fn run(ctx: &Ctx) -> Report {
     } else {
         "quick/miri: last row, last column and origin of every accepted VarDisplay are drawn in every non-zero colour and then in the zero colour"
     });
+    if miri {
+        rep.note("mode miri: w,h in 0..=8, buffer_len 0..=64, drawing of an accepted buffer stops at its first panicking pixel");
+    }
     rep.note("tag w%8!=0 on VarDisplay<TriColor> means w%8 in 1..=4 (where ceil(2w/8) != 2*ceil(w/8)); w%8 in 5..=7 is tagged w%8>=5");
     rep
 }
